@@ -678,6 +678,26 @@ def replay_tablecolumn():
 
 
 # ------------------------------------------------------------------ bounded: mutate the copy
+def _eq_zoo():
+    from mindsdb_sql import parse_sql
+    from mindsdb_sql.planner import plan_query
+    from mindsdb_sql.planner.step_result import Result
+    from mindsdb_sql.planner.query_plan import QueryPlan
+    from mindsdb_sql.parser.ast import Identifier, Constant, Star, TableColumn, Parameter, NullConstant
+    zoo = []
+    for sql in ('select a from int1.t where b = 1', 'select * from int1.t1 as a join int2.t2 as b on a.id = b.id limit 2', 'select a from int1.t where b = 1'):
+        plan = plan_query(parse_sql(sql), integrations=['int1', 'int2'], default_namespace='mindsdb')
+        zoo.append(plan)
+        zoo.extend(plan.steps)
+        zoo.extend(s.result for s in plan.steps)
+    zoo += [Result(0), Result(0), Result(1), Result(2), QueryPlan(), QueryPlan(steps=[])]
+    zoo += [Identifier('a'), Identifier('a'), Identifier(parts=['t', 'a']), Constant(0), Constant(0), Constant('a'), Constant(1), Star(), Parameter('?'), NullConstant(),
+            TableColumn(name='a', type='int'), TableColumn(name='a', type='int'), TableColumn(name='b')]
+    zoo += [parse_sql('select 1'), parse_sql('select 1'), parse_sql('select a from t')]
+    zoo += [0, 1, 2, 'a', '?', None, (0,), 0.0]
+    return zoo
+
+
 def bounded(rep, tier):
     from mindsdb_sql.parser.ast.base import ASTNode
     from mindsdb_sql.parser.ast import Identifier
@@ -730,12 +750,36 @@ def bounded(rep, tier):
                             fails.setdefault(f'C18.bounded.mutation-leaks.{type(x).__name__}.{k}', (sql, f'mutating copy {p}.{k} changes the original to `{str(tree)[:100]}`'))
                     except Exception:
                         pass
+    # equality across classes: for a zoo of real objects of every class with a hand-written __eq__ (steps, results, plans, columns, nodes) and some
+    # plain values, `==` is symmetric for every ordered pair and equal hashable objects have equal hashes
+    try:
+        zoo = _eq_zoo()
+        for i, x in enumerate(zoo):
+            for y in zoo[i:]:
+                n += 1
+                try:
+                    a, b = (x == y), (y == x)
+                except Exception as e:
+                    fails.setdefault(f'C18.bounded.eq-cross.raises.{type(x).__name__}.{type(y).__name__}', (f'{x!r} == {y!r}'[:160], f'{type(e).__name__}: {e}'[:120]))
+                    continue
+                if bool(a) != bool(b):
+                    fails.setdefault(f'C18.bounded.eq-cross.asymmetric.{type(x).__name__}.{type(y).__name__}', (f'{x!r} == {y!r}'[:200], f'x == y is {a}, y == x is {b}'))
+                elif a is True and x is not y:
+                    try:
+                        hx, hy = hash(x), hash(y)
+                    except TypeError:
+                        continue
+                    if hx != hy:
+                        fails.setdefault(f'C18.bounded.eq-cross.hash.{type(x).__name__}.{type(y).__name__}', (f'{x!r} == {y!r}'[:200], 'equal objects with different hashes'))
+    except Exception as e:
+        fails.setdefault('C18.bounded.eq-cross.zoo', ('(building the objects)', f'{type(e).__name__}: {e}'[:160]))
     rep.census['identifier.runtime_attrs'] = sorted(seen_attrs)
     for cid, (sql, obs) in sorted(fails.items()):
         rep.add_bounded(Bounded(cid, False, sql, obs, 'copy independent of the original', bound='corpus trees'))
     rep.bounded_evals = n
     rep.bounded_rule = ('every corpus tree: copy() equal and printing identically, no node/list object shared (identity walk), and every '
-                        'single-attribute mutation of the first 40 nodes of the copy leaves str(original) unchanged')
+                        'single-attribute mutation of the first 40 nodes of the copy leaves str(original) unchanged; `==` symmetric and hash-consistent for '
+                        'every pair of a zoo of real steps / results / plans / columns / nodes / plain values')
 
 
 def check(rep, tier):
